@@ -484,7 +484,7 @@ pub fn run(rep: &mut Report) {
     let n: u64 = if thorough { 8000 } else { 320 };
     let table = Arc::new(slot_keys());
     crate::c02::run_sharded(rep, n, 16, move |local, sub, rt| {
-        rt.block_on(run_one(local, sub, table.clone()));
+        crate::run_guarded!(rt, local, "C07", sub, 1_000_000u64, run_one(local, sub, table.clone()));
     });
     rep.floor("scenarios", if thorough { 2000 } else { 150 });
     rep.floor("scenarios_converged", 100);
